@@ -129,11 +129,42 @@ pub fn sample_of(f32_: bool, max_n: usize, ill: bool) -> impl Strategy<Value = S
         prop_oneof![2 => Just(0u32), 8 => 1u32..=kmax_ok].boxed()
     };
     let erange = if f32_ { -15i32..=15 } else { -60i32..=60 };
-    (0usize..6, kappa, any::<bool>(), erange, raw_sized(max_n)).prop_map(move |(shape, kc, neg, e, raw)| Sample {
-        f32: f32_,
-        shape: SHAPES[shape].to_string(),
-        data: xs(&build_values(f32_, shape, kc, neg, e, &raw)),
+    // 8 %: the same data scaled (exactly, by a power of two) to within 12 binades of the largest magnitude
+    // at which n * x^2 still fits the float type — legitimate data near the top of the range
+    let edge = prop_oneof![23 => Just(None), 2 => (0u8..12).prop_map(Some)];
+    (0usize..6, kappa, any::<bool>(), erange, raw_sized(max_n), edge).prop_map(move |(shape, kc, neg, e, raw, edge)| {
+        let mut data = build_values(f32_, shape, kc, neg, e, &raw);
+        let mut shape_name = SHAPES[shape].to_string();
+        if let Some(back) = edge {
+            if scale_to_upper_edge(f32_, &mut data, back) {
+                shape_name.push_str("@upper-edge");
+            }
+        }
+        Sample { f32: f32_, shape: shape_name, data: xs(&data) }
     })
+}
+
+/// scale `data` by a power of two so that n * max|x|^2 is `back` + 4 binades below the overflow threshold of the
+/// float type; returns false (data untouched) if the data are all zero or already there
+pub fn scale_to_upper_edge(f32_: bool, data: &mut [f64], back: u8) -> bool {
+    let maxabs = data.iter().fold(0.0f64, |m, x| m.max(x.abs()));
+    if !(maxabs > 0.0) || !maxabs.is_finite() {
+        return false;
+    }
+    let max_exp = if f32_ { 127.0 } else { 1023.0 };
+    let n = data.len().max(1) as f64;
+    let e_max = ((max_exp - 4.0 - back as f64 - n.log2() - 2.0 * maxabs.log2()) / 2.0).floor() as i32;
+    if e_max <= 0 {
+        return false;
+    }
+    let s = crate::fl::pow2(e_max);
+    for x in data.iter_mut() {
+        *x *= s;
+        if f32_ {
+            *x = (*x as f32) as f64;
+        }
+    }
+    data.iter().all(|x| x.is_finite())
 }
 pub fn sample(max_n: usize, ill: bool) -> impl Strategy<Value = Sample> {
     prop_oneof![sample_of(false, max_n, ill), sample_of(true, max_n, ill)]
